@@ -680,7 +680,7 @@ def tie(ctx):
         progs.append(("replay", ctx.replay_in["replay"]["program"]))
     for i in range(ctx.n(400, 12000)):
         progs.append((f"gen{i}", gen_program(rng)))
-    lines, meta = [], []
+    lines, meta, pruned_broken = [], [], []
     for name, body in progs:
         body = _tuplify(body)
         src = source(body)
@@ -721,9 +721,16 @@ def tie(ctx):
                     f"check() outcome {real} differs from the source-level reading: variables read with two different types = {sorted(src_conf)}",
                     {"program": body, "source": src, "real": real, "source_oracle_type_conflicts": sorted(src_conf), "cfg": cap},
                 )
+        # hypothesis `Pruned` of reachable_types_from_real_paths, on the CFG the builder handed to the checker
+        bad_edge = unpruned_edge(cap)
+        if bad_edge is not None and not pruned_broken:
+            pruned_broken.append(bad_edge)
+            ctx.broke(f"hypothesis Pruned (Spec/C08.lean) fails on a CFG built by CFGBuilder.build: edge {bad_edge} "
+                      f"enters a really reachable block but is not a real edge out of a reachable block; program\n{src}")
         line, rev = sx_cap(cap)
         lines.append(line)
         meta.append((src, real, rev, body))
+    ctx.dist["pruned-hypothesis-checked"] = len(meta)
     replies = ctx.driver(DRIVER, lines)
     for (src, real, rev, body), rep in zip(meta, replies):
         m = parse_model(rep, rev)
@@ -732,6 +739,26 @@ def tie(ctx):
         if not ok:
             ctx.broke(f"correspondence Model/UseDef.lean vs cfg_checker.py: real={real} model={m} on\n{src}")
             break
+
+
+def unpruned_edge(cap):
+    """None if the captured CFG satisfies `Pruned`, else an offending edge (p, s, kind)"""
+    blocks = {b["idx"]: b for b in cap["blocks"]}
+    reach, stack = set(), [cap["entry"]]
+    while stack:
+        b = stack.pop()
+        if b in reach:
+            continue
+        reach.add(b)
+        stack += blocks[b]["succ"]
+    for p, b in blocks.items():
+        for s in b["succ"]:
+            if s in reach and p not in reach:
+                return (p, s, "real edge out of unreachable code")
+        for s in b["dsucc"]:
+            if s in reach:
+                return (p, s, "dummy edge into reachable code")
+    return None
 
 
 def _has_partial(cap):
